@@ -4,6 +4,8 @@
 //   variant C: copyable element, noexcept moves     M: move-only element, noexcept moves
 //           T: copyable element whose k-th assignment throws on demand (op suffix !k)     U: move-only, throwing
 //           P: plain std::int64_t (trivially copyable; no instance counting)
+//           S: std::string with 20-character values      Q: std::unique_ptr<int> (move-only)
+// Op suffix ~f selects the overload / value category / argument form the driver uses for eb, em, emb, in, im, pb.
 // Every element type counts its instances (live set keyed by address): constructing over a live object, destroying
 // or using a dead one sets a trap flag; elements still alive after the whole pool was destroyed are a leak.
 // A moved-from element shows as 'm', a value-initialised one (never written, or T() asked for by emplace_back()) as '0'.
@@ -15,6 +17,7 @@
 #include <nitro/lang/fixed_vector.hpp>
 #include <nitro/lang/reverse.hpp>
 
+#include <algorithm>
 #include <array>
 #include <cstdint>
 #include <iterator>
@@ -53,6 +56,7 @@ inline void tick() noexcept(!Throwing)
     int v;                                                                                                             \
     NAME() noexcept : v(0) { reg(this); }                                                                              \
     explicit NAME(int x) noexcept : v(x) { reg(this); }                                                                \
+    NAME(int a, int b) noexcept : v(a + b) { reg(this); }                                                              \
     NAME(NAME&& o) noexcept(!THROWING) : v(o.v) { alive(&o); o.v = -1; reg(this); }                                    \
     NAME& operator=(NAME&& o) noexcept(!THROWING)                                                                      \
     {                                                                                                                  \
@@ -87,8 +91,27 @@ using Plain = std::int64_t;
 template <> struct traits<Plain> { static constexpr bool copy = true, thr = false; };
 static_assert(std::is_trivially_copyable<Plain>::value, "variant P must be trivially copyable");
 
+// variants S and Q: real library element types that own heap memory (values longer than any small-string buffer)
+using Str = std::string;
+using UPtr = std::unique_ptr<int>;
+template <> struct traits<Str> { static constexpr bool copy = true, thr = false; };
+template <> struct traits<UPtr> { static constexpr bool copy = false, thr = false; };
+constexpr std::size_t STRLEN = 20;
+
 template <typename E> long val(const E& e) { alive(&e); return e.v; }
 inline long val(const Plain& e) { return static_cast<long>(e); }
+inline long val(const Str& e)
+{
+    if (e.empty()) return 0; // T() (and the usual moved-from state)
+    if (e.size() != STRLEN || e[0] < '0' || e[0] > '9') return -2;
+    for (char c : e) if (c != e[0]) return -2;
+    return e[0] - '0';
+}
+inline long val(const UPtr& e) { return e ? *e : 0; }
+// an element of value x, built outside the container
+template <typename E> E mk(int x) { return E(x); }
+template <> inline Str mk<Str>(int x) { return x == 0 ? Str() : Str(STRLEN, static_cast<char>('0' + x)); }
+template <> inline UPtr mk<UPtr>(int x) { return x == 0 ? UPtr() : std::make_unique<int>(x); }
 template <typename E>
 char ch(const E& e)
 {
@@ -121,7 +144,7 @@ struct SinglePass
 inline std::string dash(const std::string& s) { return s.empty() ? "-" : s; }
 
 constexpr std::size_t NPOOL = 3;
-constexpr std::size_t MAXIT = 64; // no container in these cases is that large: an iteration that long is broken
+constexpr std::size_t MAXIT = 1100; // no container in these cases is that large: an iteration that long is broken
 
 struct Op
 {
@@ -129,6 +152,7 @@ struct Op
     std::vector<long> a; // numeric arguments (object indices, capacity, position, value)
     std::vector<int> xs; // list argument
     long plan = -1;
+    long form = 0; // suffix ~f: which overload / value category / argument form the driver uses (same operation for the model)
 };
 
 bool parse_op(const std::string& w0, Op& op)
@@ -141,6 +165,13 @@ bool parse_op(const std::string& w0, Op& op)
         if (op.plan < 0) return false;
         w = w.substr(0, bang);
     }
+    auto tilde = w.find('~');
+    if (tilde != std::string::npos)
+    {
+        op.form = std::atol(w.c_str() + tilde + 1);
+        if (op.form < 0 || op.form > 9) return false;
+        w = w.substr(0, tilde);
+    }
     auto f = vh::split_on(w, ',');
     op.name = f[0];
     static const char* with_list[] = { "nf", "nfl", "nfa", "nfi", "nl", "la", "ir", "irs", "il", "pr", "prs", "irb" };
@@ -151,7 +182,7 @@ bool parse_op(const std::string& w0, Op& op)
     {
         if (f[i].empty() || f[i].find_first_not_of("0123456789") != std::string::npos) return false;
         long v = std::atol(f[i].c_str());
-        if (v > 64) return false;
+        if (v > 1000) return false;
         op.a.push_back(v);
     }
     if (has_list)
@@ -169,7 +200,7 @@ bool parse_op(const std::string& w0, Op& op)
            arity("ir", 2, true) || arity("il", 2, true) || arity("pr", 1, true) || arity("po", 1, false) || arity("er", 2, false) ||
            arity("de", 1, false) || arity("ea", 3, false) || arity("ba", 2, false) || arity("ia", 2, false) ||
            arity("pa", 2, false) || arity("sr", 4, false) || arity("ps", 3, false) || arity("ebd", 1, false) ||
-           arity("emd", 2, false) || arity("erb", 2, false) || arity("emb", 3, false) || arity("irb", 2, true);
+           arity("sw", 2, false) || arity("emd", 2, false) || arity("erb", 2, false) || arity("emb", 3, false) || arity("irb", 2, true);
 }
 
 // call f with an initializer_list of the given (run-time) contents
@@ -179,11 +210,11 @@ void with_il(const std::vector<int>& x, F&& f)
     switch (x.size())
     {
     case 0: { std::initializer_list<E> il{}; f(il); break; }
-    case 1: { std::initializer_list<E> il{ E(x[0]) }; f(il); break; }
-    case 2: { std::initializer_list<E> il{ E(x[0]), E(x[1]) }; f(il); break; }
-    case 3: { std::initializer_list<E> il{ E(x[0]), E(x[1]), E(x[2]) }; f(il); break; }
-    case 4: { std::initializer_list<E> il{ E(x[0]), E(x[1]), E(x[2]), E(x[3]) }; f(il); break; }
-    default: { std::initializer_list<E> il{ E(x[0]), E(x[1]), E(x[2]), E(x[3]), E(x[4]) }; f(il); break; }
+    case 1: { std::initializer_list<E> il{ mk<E>(x[0]) }; f(il); break; }
+    case 2: { std::initializer_list<E> il{ mk<E>(x[0]), mk<E>(x[1]) }; f(il); break; }
+    case 3: { std::initializer_list<E> il{ mk<E>(x[0]), mk<E>(x[1]), mk<E>(x[2]) }; f(il); break; }
+    case 4: { std::initializer_list<E> il{ mk<E>(x[0]), mk<E>(x[1]), mk<E>(x[2]), mk<E>(x[3]) }; f(il); break; }
+    default: { std::initializer_list<E> il{ mk<E>(x[0]), mk<E>(x[1]), mk<E>(x[2]), mk<E>(x[3]), mk<E>(x[4]) }; f(il); break; }
     }
 }
 
@@ -202,6 +233,20 @@ struct Interp
     {
         try { return ch(std::get<I>(v)); }
         catch (const nitro::except::exception&) { return 'R'; }
+    }
+    template <std::size_t I>
+    static const E* get_addr_i(FV& v) { return &std::get<I>(v); }
+    static const E* get_addr(FV& v, std::size_t k)
+    {
+        switch (k)
+        {
+        case 0: return get_addr_i<0>(v);
+        case 1: return get_addr_i<1>(v);
+        case 2: return get_addr_i<2>(v);
+        case 3: return get_addr_i<3>(v);
+        case 4: return get_addr_i<4>(v);
+        default: return get_addr_i<5>(v);
+        }
     }
     static char get_dyn(FV& v, std::size_t k)
     {
@@ -242,6 +287,22 @@ struct Interp
             d.push_back(y == ch(cv.data()[k]) ? y : '?');
         }
         if (v.data() != v.begin() || cv.data() != cv.begin()) d = "?data";
+        // every accessor must hand out a reference to the element in the container's own storage (not a copy, not a neighbour)
+        {
+            bool refs = true;
+            for (std::size_t k = 0; k < s; k++)
+            {
+                refs = refs && &v[k] == v.data() + k && &cv[k] == cv.data() + k && &v.at(k) == &v[k] && &cv.at(k) == &cv[k];
+                if (k <= 5) refs = refs && get_addr(v, k) == &v[k];
+            }
+            if (s > 0)
+                refs = refs && &v.front() == v.data() && &cv.front() == cv.data() && &v.back() == v.data() + (s - 1) &&
+                       &cv.back() == cv.data() + (s - 1);
+            refs = refs && v.end() == v.data() + s && cv.end() == cv.data() + s && v.cend() == cv.data() + s &&
+                   v.rbegin().base() == v.end() && v.rend().base() == v.begin() && cv.crbegin().base() == cv.end() &&
+                   cv.crend().base() == cv.begin() && cv.rbegin().base() == cv.end() && cv.rend().base() == cv.begin();
+            if (!refs) d = "?refs";
+        }
         // at() for every index 0..capacity+1; the const overload and std::get<I> are compared with it on the live
         // range and at the first index that must be refused (every further refused index costs a throw each)
         for (std::size_t k = 0; k <= c + 1; k++)
@@ -267,6 +328,20 @@ struct Interp
         {
             f = walk(v.begin(), v.end());
             if (f != walk(cv.begin(), cv.end()) || f != walk(v.cbegin(), v.cend())) f = "?fwd";
+            else
+            {
+                // other ways of walking the same range: range-for, post-increment, indexing an iterator, std algorithms
+                std::string g, h, q;
+                for (auto& x : v) g.push_back(ch(x));
+                for (const auto& x : cv) h.push_back(ch(x));
+                for (auto it = v.begin(); it != v.end(); it++) q.push_back(ch(*it));
+                bool okk = g == f && h == f && q == f;
+                for (std::size_t k = 0; k < s; k++) okk = okk && ch(v.begin()[k]) == f[k] && ch(*(cv.end() - (s - k))) == f[k];
+                okk = okk && static_cast<std::size_t>(std::count_if(cv.begin(), cv.end(), [](const E&) { return true; })) == s;
+                if (s > 0)
+                    okk = okk && std::find_if(v.begin(), v.end(), [&](const E& x) { return ch(x) == f[s - 1]; }) <= v.end() - 1;
+                if (!okk) f = "?iter";
+            }
         }
         if (std::distance(v.rbegin(), v.rend()) != dist || std::distance(cv.rbegin(), cv.rend()) != dist ||
             std::distance(v.crbegin(), v.crend()) != dist)
@@ -274,6 +349,11 @@ struct Interp
         else
         {
             r = walk(v.rbegin(), v.rend());
+            {
+                std::string q;
+                for (auto it = v.crbegin(); it != v.crend(); it++) q.push_back(ch(*it));
+                if (q != r) r = "?rev";
+            }
             if (r != walk(cv.rbegin(), cv.rend()) || r != walk(v.crbegin(), v.crend())) r = "?rev";
             else if (r != walk_range(nitro::lang::reverse(v)) || r != walk_range(nitro::lang::reverse(cv))) r = "?reverse";
             if constexpr (COPY)
@@ -323,7 +403,7 @@ struct Interp
 
     static std::vector<std::size_t> writes(const Op& op)
     {
-        if (op.name == "mv" || op.name == "ma") return { (std::size_t)op.a[0], (std::size_t)op.a[1] };
+        if (op.name == "mv" || op.name == "ma" || op.name == "sw") return { (std::size_t)op.a[0], (std::size_t)op.a[1] };
         return { (std::size_t)op.a[0] };
     }
     static std::vector<std::size_t> uses(const Op& op)
@@ -332,6 +412,7 @@ struct Interp
         if (n == "n" || n == "nf" || n == "nfl" || n == "nfa" || n == "nfi" || n == "nl" || n == "la" || n == "de") return {};
         if (n == "cp" || n == "mv" || n == "as" || n == "ma") return { (std::size_t)op.a[1] };
         if (n == "nfv") return { (std::size_t)op.a[2] };
+        if (n == "sw") return { (std::size_t)op.a[0], (std::size_t)op.a[1] };
         return { (std::size_t)op.a[0] };
     }
     static bool needs_copy(const Op& op)
@@ -348,6 +429,7 @@ struct Interp
         if ((op.name == "nl" || op.name == "la" || op.name == "il" || op.name == "nfi") && op.xs.size() > 5) return true;
         if (op.name == "nfa" && op.xs.size() > 6) return true;
         if (op.name == "get" && op.a[1] > 5) return true;
+        if (op.name == "sw" && op.plan >= 0) return true; // std::swap is three operations: no single fault plan
         if ((op.name == "erb" || op.name == "emb" || op.name == "irb") && (op.a[1] < 1 || op.a[1] > 4)) return true;
         return false;
     }
@@ -366,7 +448,7 @@ struct Interp
     void from_array_n(std::size_t i, std::size_t c, const std::vector<int>& x, Arm& arm)
     {
         std::array<E, N> src{};
-        for (std::size_t k = 0; k < N; k++) src[k] = E(x[k]);
+        for (std::size_t k = 0; k < N; k++) src[k] = mk<E>(x[k]);
         arm();
         pool[i].emplace(c, src);
     }
@@ -382,6 +464,51 @@ struct Interp
         case 4: from_array_n<4>(i, c, x, arm); break;
         case 5: from_array_n<5>(i, c, x, arm); break;
         default: from_array_n<6>(i, c, x, arm); break;
+        }
+    }
+
+    // emplace_back(args...) / emplace(pos, args...) with the argument forms the element type offers:
+    //   0 native constructor argument(s) as rvalues      1 the same as named lvalues      2 a temporary element (T&&)
+    //   3 std::move(named element)      4 a const element (copy; copyable types, else as 0)      5 several arguments
+    template <typename... A>
+    static std::size_t emplace_any(FV& v, typename FV::pointer pos, bool back, A&&... a)
+    {
+        if (back) return v.emplace_back(std::forward<A>(a)...);
+        v.emplace(pos, std::forward<A>(a)...);
+        return v.size() - 1;
+    }
+    static std::size_t emplace_form(FV& v, typename FV::pointer pos, bool back, int x, long form)
+    {
+        if (form == 2) return emplace_any(v, pos, back, mk<E>(x));
+        if (form == 3) { E e = mk<E>(x); return emplace_any(v, pos, back, std::move(e)); }
+        if constexpr (COPY)
+        {
+            if (form == 4) { const E e = mk<E>(x); return emplace_any(v, pos, back, e); }
+        }
+        if constexpr (std::is_same<E, Str>::value)
+        {
+            if (x == 0) return emplace_any(v, pos, back);
+            char c = static_cast<char>('0' + x);
+            std::size_t n = STRLEN;
+            Str s(STRLEN, c);
+            if (form == 1) return emplace_any(v, pos, back, n, c);
+            if (form == 5) { const char* p = s.c_str(); return emplace_any(v, pos, back, p, n); }
+            return emplace_any(v, pos, back, STRLEN, static_cast<char>('0' + x));
+        }
+        else if constexpr (std::is_same<E, UPtr>::value)
+        {
+            if (x == 0) return emplace_any(v, pos, back);
+            return emplace_any(v, pos, back, mk<E>(x)); // (a raw owning pointer argument would leak when the call is refused)
+        }
+        else
+        {
+            int y = x;
+            if (form == 1) return emplace_any(v, pos, back, y);
+            if constexpr (!std::is_same<E, Plain>::value)
+            {
+                if (form == 5) return emplace_any(v, pos, back, x - x / 2, x / 2);
+            }
+            return emplace_any(v, pos, back, static_cast<int>(x));
         }
     }
 
@@ -401,14 +528,14 @@ struct Interp
             if (n == "nf")
             {
                 std::vector<E> src;
-                for (int x : op.xs) src.emplace_back(x);
+                for (int x : op.xs) src.push_back(mk<E>(x));
                 pool[i].reset(); arm(); pool[i].emplace(static_cast<std::size_t>(op.a[1]), src); return ok;
             }
             // the same public constructor fixed_vector(capacity, iterable) with other kinds of iterable
             if (n == "nfl")
             {
                 std::list<E> src;
-                for (int x : op.xs) src.emplace_back(x);
+                for (int x : op.xs) src.push_back(mk<E>(x));
                 pool[i].reset(); arm(); pool[i].emplace(static_cast<std::size_t>(op.a[1]), src); return ok;
             }
             if (n == "nfa") { pool[i].reset(); from_array(i, static_cast<std::size_t>(op.a[1]), op.xs, arm); return ok; }
@@ -460,12 +587,27 @@ struct Interp
                 with_il<E>(op.xs, [&](std::initializer_list<E>& il) { arm(); auto&& r = (v = il); if (&r != &v) ok = "D!ret"; });
                 return ok;
             }
-            if (n == "in") { E x(static_cast<int>(op.a[1])); arm(); auto r = v.insert(x); return r + 1 == v.size() ? ok : "D!ret"; }
-            if (n == "pb") { E x(static_cast<int>(op.a[1])); arm(); auto r = v.push_back(x); return r + 1 == v.size() ? ok : "D!ret"; }
+            // value categories of the argument: named lvalue, const lvalue, temporary (there is no push_back(T&&))
+            if (n == "in")
+            {
+                E x = mk<E>(static_cast<int>(op.a[1]));
+                const E& cx = x;
+                arm();
+                auto r = (op.form % 2 == 0) ? v.insert(x) : v.insert(cx);
+                return r + 1 == v.size() ? ok : "D!ret";
+            }
+            if (n == "pb")
+            {
+                E x = mk<E>(static_cast<int>(op.a[1]));
+                const E& cx = x;
+                arm();
+                auto r = (op.form % 3 == 0) ? v.push_back(x) : (op.form % 3 == 1) ? v.push_back(cx) : v.push_back(mk<E>(static_cast<int>(op.a[1])));
+                return r + 1 == v.size() ? ok : "D!ret";
+            }
             if (n == "ir" || n == "pr")
             {
                 std::vector<E> src;
-                for (int x : op.xs) src.emplace_back(x);
+                for (int x : op.xs) src.push_back(mk<E>(x));
                 arm();
                 if (n == "ir") v.insert(v.begin() + op.a[1], src.begin(), src.end());
                 else v.push_back(src.begin(), src.end());
@@ -474,7 +616,7 @@ struct Interp
             if (n == "irs" || n == "prs")
             {
                 std::vector<E> src;
-                for (int x : op.xs) src.emplace_back(x);
+                for (int x : op.xs) src.push_back(mk<E>(x));
                 SinglePass<E> first, last;
                 first.src = &src; first.pos = std::make_shared<std::size_t>(0); first.is_end = false;
                 arm();
@@ -519,11 +661,11 @@ struct Interp
             auto pos = v.begin() - op.a[1];
             arm();
             if (n == "erb") { v.erase(pos); return ok; }
-            if (n == "emb") { v.emplace(pos, static_cast<int>(op.a[2])); return ok; }
+            if (n == "emb") { emplace_form(v, pos, false, static_cast<int>(op.a[2]), op.form); return ok; }
             if constexpr (COPY)
             {
                 std::vector<E> src;
-                for (int x : op.xs) src.emplace_back(x);
+                for (int x : op.xs) src.push_back(mk<E>(x));
                 v.insert(pos, src.begin(), src.end());
                 return ok;
             }
@@ -531,9 +673,24 @@ struct Interp
         if (n == "ma") { arm(); auto&& r = (v = std::move(*pool[op.a[1]])); return &r == &v ? ok : "D!ret"; }
         if (n == "at") { (void)ch(v.at(op.a[1])); (void)ch(static_cast<const FV&>(v).at(op.a[1])); return ok; }
         if (n == "get") { return get_dyn(v, op.a[1]) == 'R' ? "R" : ok; }
-        if (n == "em") { arm(); v.emplace(v.begin() + op.a[1], static_cast<int>(op.a[2])); return ok; }
-        if (n == "eb") { arm(); auto r = v.emplace_back(static_cast<int>(op.a[1])); return r + 1 == v.size() ? ok : "D!ret"; }
-        if (n == "im") { arm(); auto r = v.insert(E(static_cast<int>(op.a[1]))); return r + 1 == v.size() ? ok : "D!ret"; }
+        if (n == "em") { arm(); emplace_form(v, v.begin() + op.a[1], false, static_cast<int>(op.a[2]), op.form); return ok; }
+        if (n == "eb") { arm(); auto r = emplace_form(v, nullptr, true, static_cast<int>(op.a[1]), op.form); return r + 1 == v.size() ? ok : "D!ret"; }
+        if (n == "im")
+        {
+            E x = mk<E>(static_cast<int>(op.a[1]));
+            arm();
+            auto r = (op.form % 2 == 0) ? v.insert(mk<E>(static_cast<int>(op.a[1]))) : v.insert(std::move(x));
+            return r + 1 == v.size() ? ok : "D!ret";
+        }
+        // std::swap: move construction of a temporary and two move assignments
+        if (n == "sw")
+        {
+            std::size_t j = op.a[1];
+            if (i == j || !pool[j]) return "S";
+            using std::swap;
+            swap(v, *pool[j]);
+            return ok;
+        }
         if (n == "po") { v.pop_back(); return ok; }
         if (n == "er") { arm(); v.erase(v.begin() + op.a[1]); return ok; }
         return "BADOP";
@@ -599,6 +756,8 @@ std::string run_case(const std::vector<std::string>& w)
         else if (w[0] == "T") { Interp<ElemT> in; r = in.run(w); }
         else if (w[0] == "U") { Interp<ElemU> in; r = in.run(w); }
         else if (w[0] == "P") { Interp<Plain> in; r = in.run(w); }
+        else if (w[0] == "S") { Interp<Str> in; r = in.run(w); }
+        else if (w[0] == "Q") { Interp<UPtr> in; r = in.run(w); }
         else return "BADCASE";
     }
     catch (...)
